@@ -1,0 +1,93 @@
+//! C14: `TokenMemoryCache` (client-side one-shot token store) through its `TokenStore` trait.
+//!
+//! Requests (first token `tokencache` removed):
+//!   new <max_server_names> <max_tokens_per_server>
+//!   insert <name> <token-hex>     -> ok <state>
+//!   take <name>                   -> some <token-hex> <state> | none <state>
+//! <state> = n=<entries> lru=<name:tok,tok;name:tok..|-> (most recently used first, queue front first)
+//!           keys=<sorted lookup keys|-> ok=<lookup consistent with slab>
+use bytes::Bytes;
+
+use super::{hex, unhex, Comp, BAD};
+use crate::{TokenMemoryCache, TokenStore};
+
+pub(super) struct TokenCacheC(TokenMemoryCache);
+
+impl TokenCacheC {
+    pub(super) fn new() -> Self {
+        Self(TokenMemoryCache::default())
+    }
+
+    fn state(&self) -> String {
+        let (lru, keys, consistent) = self.0.verif_state();
+        let l = if lru.is_empty() {
+            "-".to_string()
+        } else {
+            lru.iter()
+                .map(|(n, ts)| {
+                    format!(
+                        "{}:{}",
+                        n,
+                        ts.iter().map(|t| hex(t)).collect::<Vec<_>>().join(",")
+                    )
+                })
+                .collect::<Vec<_>>()
+                .join(";")
+        };
+        let k = if keys.is_empty() {
+            "-".to_string()
+        } else {
+            keys.join(",")
+        };
+        format!("n={} lru={} keys={} ok={}", lru.len(), l, k, consistent)
+    }
+}
+
+fn dec(s: &str) -> Option<u128> {
+    if s.is_empty() || !s.bytes().all(|b| b.is_ascii_digit()) {
+        return None;
+    }
+    s.parse().ok()
+}
+
+fn name(s: &str) -> Option<&str> {
+    if !s.is_empty() && s.bytes().all(|b| b.is_ascii_lowercase() || b.is_ascii_digit()) {
+        Some(s)
+    } else {
+        None
+    }
+}
+
+impl Comp for TokenCacheC {
+    fn exec(&mut self, w: &[&str]) -> String {
+        match w {
+            ["new", a, b] => {
+                let (Some(a), Some(b)) = (dec(a), dec(b)) else {
+                    return BAD.into();
+                };
+                let (Ok(a), Ok(b)) = (u32::try_from(a), usize::try_from(b)) else {
+                    return BAD.into();
+                };
+                self.0 = TokenMemoryCache::new(a, b);
+                "ok".into()
+            }
+            ["insert", n, h] => {
+                let (Some(n), Some(t)) = (name(n), unhex(h)) else {
+                    return BAD.into();
+                };
+                self.0.insert(n, Bytes::from(t));
+                format!("ok {}", self.state())
+            }
+            ["take", n] => {
+                let Some(n) = name(n) else {
+                    return BAD.into();
+                };
+                match self.0.take(n) {
+                    Some(t) => format!("some {} {}", hex(&t), self.state()),
+                    None => format!("none {}", self.state()),
+                }
+            }
+            _ => BAD.into(),
+        }
+    }
+}
